@@ -50,9 +50,37 @@ def gen(src, consts):
     lb = [ast.unparse(s) for s in loops[0].body if not is_logging(s)]
     if lb != ['self.basic.cancel(%s)' % loops[0].target.id]:
         raise ExtractError('stop_consuming: loop body changed: %r' % lb)
-    tests = [ast.unparse(n.test) for n in ast.walk(g) if isinstance(n, ast.If)]
-    if tests != ['not self.consumer_tags', 'not self.is_closed']:
-        raise ExtractError('stop_consuming: guards changed: %r' % tests)
+    body = [st for st in strip_doc(g.body) if not is_logging(st)]
+    shape = [type(st).__name__ + ':' + (ast.unparse(st.test) if hasattr(st, 'test') else ast.unparse(st)) for st in body]
+    if shape == ['If:not self.consumer_tags', 'If:not self.is_closed', 'Expr:self.remove_consumer_tag()']:
+        # one pass over the tags seen at entry, then the list is cleared unconditionally
+        repeats = False
+    elif shape == ['If:not self.consumer_tags', 'If:self.is_closed', 'While:self.consumer_tags']:
+        # closed channel: just forget the tags; otherwise cancel in rounds until no consumer is recorded
+        closed_branch = [ast.unparse(x) for x in body[1].body if not is_logging(x)]
+        if closed_branch != ['self.remove_consumer_tag()', 'return'] or body[1].orelse:
+            raise ExtractError('stop_consuming: closed-channel branch changed: %r' % closed_branch)
+        wb = [x for x in body[2].body if not is_logging(x)]
+        if len(wb) != 1 or wb[0] is not loops[0]:
+            raise ExtractError('stop_consuming: while body is not the cancel loop')
+        repeats = True
+    else:
+        raise ExtractError('stop_consuming: shape changed: %r' % shape)
+    # ---- Channel.process_data_events: dispatch by tag --------------------------------------------------
+    pd = src.func('channel.py', 'Channel', 'process_data_events')
+    waits = False
+    for node in ast.walk(pd):
+        if isinstance(node, ast.If) and ast.unparse(node.test) == 'consumer_tag not in self._consumer_callbacks':
+            inner = [st for st in node.body if not is_logging(st)]
+            if len(inner) == 1 and isinstance(inner[0], ast.With) and \
+                    [ast.unparse(i.context_expr) for i in inner[0].items] == ['self.lock'] and \
+                    all(isinstance(x, ast.Pass) for x in inner[0].body) and not node.orelse:
+                waits = True
+            else:
+                raise ExtractError('process_data_events: unrecognised handling of an unknown consumer tag')
+    pdt = ast.unparse(pd)
+    if "consumer_tag = message._method.get('consumer_tag')" not in pdt or pdt.count('self._consumer_callbacks[consumer_tag](') != 2:
+        raise ExtractError('process_data_events: dispatch by consumer_tag changed')
     # ---- Channel.close -------------------------------------------------------------------------------
     h = src.func('channel.py', 'Channel', 'close')
     txt = ast.unparse(h)
@@ -71,7 +99,11 @@ def gen(src, consts):
             'def connCloseUnderLock : Bool := %s\n'
             '/-- stop_consuming iterates a copy of the tag list (basic.cancel removes tags from the list itself) -/\n'
             'def stopIteratesCopy : Bool := %s\n'
-            'end Amqp.Gen.Close\n' % (str(locked).lower(), str(copy).lower()))
+            '/-- stop_consuming cancels in rounds until no consumer is recorded, and clears the list only on a closed channel -/\n'
+            'def stopRepeatsUntilEmpty : Bool := %s\n'
+            '/-- a delivery whose tag has no callback yet waits for the channel lock (held by consume() until the callback is stored) -/\n'
+            'def dispatchWaitsForLock : Bool := %s\n'
+            'end Amqp.Gen.Close\n' % (str(locked).lower(), str(copy).lower(), str(repeats).lower(), str(waits).lower()))
 
 
 FILES = {'Close.lean': gen}
